@@ -9,6 +9,7 @@
 #include <cstring>
 #include <cinttypes>
 #include <string>
+#include <vector>
 #include <sstream>
 #define private public
 #define protected public
@@ -188,7 +189,42 @@ int xx_op(int n, char **tok)
         }
       }
       catch(...) { out = save; fclose(m); free(mem); throw; }
-      out = save; fclose(m); fputs("R it", out); fputs(mem, out); free(mem);
+      out = save; fclose(m);
+      /* every other way of walking the same children must visit the same settings in the same order */
+      {
+        std::vector<config_setting_t *> seq, alt;
+        for(Setting::iterator it = s.begin(); it != s.end(); ++it) seq.push_back(it->_setting);
+        const char *bad = NULL;
+        Setting &rt = cx->getRoot();
+        const Setting &cs_ = s;
+        /* an iterator variable first bound to another aggregate, then assigned */
+        { Setting::iterator it = rt.begin(); it = s.begin(); alt.clear();
+          for(Setting::iterator e = s.end(); it != e && alt.size() <= seq.size(); ++it) alt.push_back(it->_setting);
+          if(alt != seq) bad = "iterator="; }
+        { Setting::const_iterator it = static_cast<const Setting &>(rt).begin(); it = cs_.begin(); alt.clear();
+          for(Setting::const_iterator e = cs_.end(); it != e && alt.size() <= seq.size(); ++it)
+            alt.push_back(const_cast<config_setting_t *>(it->_setting));
+          if(alt != seq && !bad) bad = "const_iterator="; }
+        /* post-increment, copies */
+        { alt.clear(); Setting::iterator it = s.begin();
+          while(it != s.end() && alt.size() <= seq.size()) { Setting::iterator c(it++); alt.push_back(c->_setting); }
+          if(alt != seq && !bad) bad = "it++"; }
+        /* backwards from end() */
+        { alt.clear(); Setting::iterator it = s.end();
+          while(it != s.begin() && alt.size() <= seq.size()) { --it; alt.insert(alt.begin(), it->_setting); }
+          if(alt != seq && !bad) bad = "--it"; }
+        /* arithmetic */
+        { alt.clear();
+          if((s.end() - s.begin()) != (int)seq.size() && !bad) bad = "end-begin";
+          for(int i = 0; i < (int)seq.size(); i++)
+          { Setting::iterator it = s.begin() + i; alt.push_back(it->_setting);
+            Setting::iterator b2 = s.end(); b2 -= ((int)seq.size() - i);
+            if(b2->_setting != it->_setting && !bad) bad = "end-=k";
+            /* (operator< is declared in libconfig.h++ but defined nowhere in the library: not used) */ }
+          if(alt != seq && !bad) bad = "begin+i"; }
+        if(bad) { fprintf(out, "R it-disagree %s\n", bad); free(mem); return 1; }
+      }
+      fputs("R it", out); fputs(mem, out); free(mem);
       fprintf(out, " n=%d\n", count);
       return 1;
     }
